@@ -129,10 +129,16 @@ def sub_document(doc, path):
     return doc, False
 
 
-def decision_diffs(rng):
+class Origin(str):
+    """origin label of a diff that also carries the merge it came from (for replays and classifiers)"""
+    meta = None
+
+
+def decision_diffs(rng, first=None):
     """(origin, sub-document at the common path, diff) for every diff inside the decisions of one merge"""
-    b, l, r, kinds = gen_nb.triple(rng)
-    args = rng.choice([Args('mergetool'), Args('inline'), Args(rng.choice(MERGE), rng.choice(INPUT), rng.choice(OUTPUT), rng.random() < 0.7)])
+    # random edit scripts, and the targeted conflict scenarios (strategies write custom diffs only on conflicts)
+    b, l, r, kinds = gen_nb.triple(rng) if first is None else gen_nb.triple_scenario(rng, first=first)
+    args = rng.choice([Args('mergetool'), Args('inline'), Args('inline'), Args(rng.choice(MERGE), rng.choice(INPUT), rng.choice(OUTPUT), rng.random() < 0.7)])
     res = run_decide(b, l, r, args)
     out = []
     if res[0] != 'ok':
@@ -145,7 +151,10 @@ def decision_diffs(rng):
         for field in ('local_diff', 'remote_diff', 'custom_diff'):
             dd = d.get(field)
             if dd:
-                out.append(('decision.' + field + ('.line' if is_line else ''), sub, dd))
+                o = Origin('decision.' + field + ('.line' if is_line else ''))
+                o.meta = {'strategy': args.key(), 'path': list(d['common_path']), 'action': d.get('action'), 'conflict': bool(d.get('conflict')),
+                          'b': vlib.enc(b), 'l': vlib.enc(l), 'r': vlib.enc(r)}
+                out.append((o, sub, dd))
     return out
 
 
